@@ -18,7 +18,7 @@ ASSUMPTIONS = [
     "the class-wide tolerance is pinned per case to 1e-11*min(extent), the value a fresh process loading a die of that extent gets",
     "cut coordinates are >= 0 (a negative coordinate means 'halve' in the API)",
 ]
-CASES = {"quick": 24000, "thorough": 1000000}
+CASES = {"quick": 24000, "thorough": 600000}
 MIN_CASES = {"quick": 6000, "thorough": 200000}
 REQUIRED_CLASSES = ["in_situ", "disjoint", "edge_touch", "corner_touch", "nested", "crossing", "identical", "other_region", "near_miss"]
 REQUIRED_COUNTERS = ["in_situ_workloads_completed", "moved_in_place_judged", "area_overlap_judged", "mul_judged", "is_inside_judged", "point_inside_judged", "touches_judged",
